@@ -57,6 +57,22 @@ func DialRtmp(addr string, timeout time.Duration) (*RtmpConn, error) {
 	if err != nil {
 		return nil, err
 	}
+	return HandshakeRtmpOn(c, timeout)
+}
+
+// TakeBuffered returns (and consumes) the bytes already read from the socket but not yet
+// parsed, so a caller can continue with raw reads on Conn.
+func (rc *RtmpConn) TakeBuffered() []byte {
+	n := rc.br.Buffered()
+	b, _ := rc.br.Peek(n)
+	out := append([]byte(nil), b...)
+	rc.br.Discard(n)
+	return out
+}
+
+// HandshakeRtmpOn performs the simple handshake as a client on an established connection.
+func HandshakeRtmpOn(c net.Conn, timeout time.Duration) (*RtmpConn, error) {
+	var err error
 	rc := newRtmpConn(c)
 	c.SetDeadline(time.Now().Add(timeout))
 	c0c1 := make([]byte, 1537)
